@@ -4,6 +4,10 @@ import CookModel.Lemmas.Convert
 import CookModel.Lemmas.ConvertExample
 import CookModel.Lemmas.ConvertMore
 import CookModel.Lemmas.BuilderBridge
+import CookModel.Lemmas.BestUnit
+import CookModel.Lemmas.BestUnitBuilt
+import CookModel.Lemmas.FitFractionChoice
+import CookModel.Lemmas.FitChoice
 /-
   C09  Unit conversion preserves the physical amount.
 
@@ -553,5 +557,270 @@ example : (match convertImpl Ex.conv ⟨.number (.regular 1), some ['k','g']⟩ 
        | (q2, .ok _) => decide (q2.value.parts = [1] ∧ q2.unit = some ['k','g'])
        | _ => false)
     | _ => false) = true := by decide +kernel
+
+/-! ## which unit is chosen (wave 4: `best_unit`, `fit_fraction`, the unit text)
+
+  Not clauses of the property's statement, but choices the code makes and the differential run compares bit for bit;
+  the theorems below say exactly what they are.  Lemmas: Lemmas/BestUnit.lean, Lemmas/BestUnitBuilt.lean,
+  Lemmas/FitFractionChoice.lean.  Vocabulary (specification side): `ConvertValue.lead` — the number `best_unit` looks
+  at (the number, or the START of a range; its absolute value is used); `Converter.BestOK` — every best list is sorted
+  by ratio, starts with threshold 1 and carries `convert_f64(1, unit, first unit)` as the threshold of every other entry;
+  `Converter.PosRatios` — every ratio is positive. -/
+
+/-- **The exact rule of `BestConversions::best_unit`, for every list.**  If it returns `b` then the list has a first
+    entry `base`, the absolute value of the leading number converted to `base`'s unit is defined (`norm`), and EITHER
+    `b` is the unit of the LAST entry `(th, b)` of the list with `th - 0.001 ≤ norm` (every later entry fails that
+    test) OR no entry passes the test and `b` is the unit of the first entry. -/
+theorem C09_best_unit_exact_rule {bc : BestConversions Rat} {value : ConvertValue Rat} {unit b : Unit Rat}
+    (h : bc.bestUnit value unit = .ok (some b)) :
+    ∃ base rest norm, bc.entries = base :: rest ∧
+      convertF64 (Rat.abs value.lead) unit base.2 = some norm ∧
+      ((∃ pre e post, bc.entries = pre ++ e :: post ∧ b = e.2 ∧ e.1 - 1 / 1000 ≤ norm ∧
+          ∀ x ∈ post, norm < x.1 - 1 / 1000) ∨
+       ((∀ x ∈ bc.entries, norm < x.1 - 1 / 1000) ∧ b = base.2)) := by
+  obtain ⟨base, rest, norm, he, hn, hb⟩ := bu_bestUnit_some h
+  refine ⟨base, rest, norm, he, hn, ?_⟩
+  rw [← buEps_val]
+  rcases bu_pick_rule bc.entries base norm with ⟨pre, e, post, hl, hp, h1, h2⟩ | ⟨h1, hp⟩
+  · exact Or.inl ⟨pre, e, post, hl, by rw [hb, hp], h1, h2⟩
+  · exact Or.inr ⟨h1, by rw [hb, hp]⟩
+
+/-- the best lists of the shipped converter are sorted by ratio and carry the thresholds `BestConversions::new`
+    computes, and every shipped ratio is positive (decided on the generated table) -/
+theorem C09_bundled_best_lists_ok :
+    (Converter.bundled Rat).BestOK ∧ (Converter.bundled Rat).PosRatios :=
+  ⟨bu_bestOKB (by decide +kernel), bu_posRatiosB (by decide +kernel)⟩
+
+/-- …and so are the best lists of EVERY converter the builder makes (`C16_best_sorted`, `C16_best_thresholds` carried
+    through the translation) -/
+theorem C09_built_best_lists_ok {files : List (Bld.UnitsFile Rat)} {c : Converter Rat}
+    (hbuilt : Bld.BuiltAs files c) : c.BestOK :=
+  bub_built_bestOK hbuilt
+
+/-- **Which unit a conversion to a system picks** (`Converter::convert` with `ConvertTo::Best(s)`, or `SameSystem`
+    with `s` the unit's own system — the default one for a unit of none).  For a sound converter with sorted lists and
+    positive ratios: the unit `b` is a member of the designated list of the SAME physical quantity for system `s`; with
+    `A` the physical amount of the absolute value of the leading number and `base` the first (smallest) unit of the
+    list, `b` is the LARGEST listed unit with `amount of 1 b − 0.001·(1 base) ≤ A` — no listed unit of larger ratio
+    satisfies that — if there is such a unit, and the smallest listed unit `base` otherwise. -/
+theorem C09_best_unit_rule {c : Converter Rat} (hc : c.Sound) (hok : c.BestOK) (hpos : c.PosRatios)
+    {u : Unit Rat} (hu : u ∈ c.allUnits) {to : ConvertTo Rat} {s : System} (hs : to.systemFor c u = some s)
+    {value v' : ConvertValue Rat} {b : Unit Rat} (h : c.convert value (.unit u) to = .ok (v', b)) :
+    ∃ base, ((c.best u.pq).conversions s).unitsOf.head? = some base ∧
+      b ∈ ((c.best u.pq).conversions s).unitsOf ∧ b.pq = u.pq ∧
+      (∀ x ∈ ((c.best u.pq).conversions s).unitsOf, base.ratio ≤ x.ratio) ∧
+      ((amount 1 b - 1 / 1000 * base.ratio ≤ amount (Rat.abs value.lead) u ∧
+          ∀ x ∈ ((c.best u.pq).conversions s).unitsOf, b.ratio < x.ratio →
+            amount (Rat.abs value.lead) u < amount 1 x - 1 / 1000 * base.ratio) ∨
+       (b = base ∧ ∀ x ∈ ((c.best u.pq).conversions s).unitsOf,
+            amount (Rat.abs value.lead) u < amount 1 x - 1 / 1000 * base.ratio)) := by
+  have hb := (bu_convertToBest_inv (bu_convert_inv hs h)).1
+  have hch := bu_choice hc hok hpos hu s hb
+  have hmem := hc.best_mem _ _ _ hch.mem
+  rw [← buEps_val]
+  cases hh : ((c.best u.pq).conversions s).unitsOf with
+  | nil => have := hch.mem; rw [hh] at this; cases this
+  | cons base rest =>
+    have hbl := hch.base_least
+    have hrule := hch.rule
+    rw [hh] at hbl hrule
+    simp only [List.headD_cons] at hbl hrule
+    refine ⟨base, rfl, by rw [← hh]; exact hch.mem, hmem.2, hbl, ?_⟩
+    rcases hrule with ⟨h1, h2⟩ | ⟨h1, h2⟩
+    · left
+      refine ⟨h1, ?_⟩
+      intro x hx hlt
+      exact Rat.not_le.mp (h2 x hx hlt)
+    · right
+      simp only [List.head?_cons, Option.some.injEq] at h1
+      subst h1
+      exact ⟨rfl, fun x hx => Rat.not_le.mp (h2 x hx)⟩
+
+/-- **What the rule means for the converted value** (non-negative leading number, as in every recipe quantity): unless
+    the smallest unit of the list was chosen because the value is too small even for it, the converted leading number
+    is at least `1 − 0.001`; and in EVERY listed unit larger than the chosen one the value would read less than 1. -/
+theorem C09_best_unit_value_bounds {c : Converter Rat} (hc : c.Sound) (hok : c.BestOK) (hpos : c.PosRatios)
+    {u : Unit Rat} (hu : u ∈ c.allUnits) {to : ConvertTo Rat} {s : System} (hs : to.systemFor c u = some s)
+    {value v' : ConvertValue Rat} {b : Unit Rat} (h : c.convert value (.unit u) to = .ok (v', b))
+    (h0 : 0 ≤ value.lead) :
+    (1 - 1 / 1000 ≤ v'.lead ∨ ((c.best u.pq).conversions s).unitsOf.head? = some b) ∧
+    (∀ x ∈ ((c.best u.pq).conversions s).unitsOf, b.ratio < x.ratio →
+      ∀ w, convertF64 value.lead u x = some w → w < 1) := by
+  obtain ⟨hb, hv⟩ := bu_convertToBest_inv (bu_convert_inv hs h)
+  have hch := bu_choice hc hok hpos hu s hb
+  have hbm := hc.best_mem _ _ _ hch.mem
+  rw [Rat.abs_of_nonneg h0] at hch
+  have hlead := bu_convertValue_lead hv
+  have hamt := convertF64_some_amount hlead (hc.ratio_ne _ hbm.1) (hc.id_inj _ _ hu hbm.1)
+  cases hh : ((c.best u.pq).conversions s).unitsOf with
+  | nil => have := hch.mem; rw [hh] at this; cases this
+  | cons base rest =>
+    have hbl := hch.base_least
+    have hrule := hch.rule
+    have hbasem : base ∈ ((c.best u.pq).conversions s).unitsOf := by rw [hh]; simp
+    have hbpos := hpos _ (hc.best_mem _ _ _ hbasem).1
+    rw [hh] at hbl hrule
+    simp only [List.headD_cons] at hbl hrule
+    rw [← buEps_val]
+    constructor
+    · rcases hrule with ⟨h1, _⟩ | ⟨h1, _⟩
+      · exact Or.inl (bu_passes_value hbpos (hbl b (by rw [← hh]; exact hch.mem)) h1 hamt)
+      · exact Or.inr h1
+    · intro x hx hlt w hw
+      have hxm := hc.best_mem _ _ _ (by rw [hh]; exact hx)
+      have hfail : ¬ buPasses base x (amount value.lead u) := by
+        rcases hrule with ⟨_, h2⟩ | ⟨_, h2⟩
+        · exact h2 x hx hlt
+        · simp only [List.head?_cons, Option.some.injEq] at *
+          rename_i h1; subst h1
+          exact h2 x hx
+      exact bu_fails_value hbpos (hpos _ hxm.1) hfail
+        (convertF64_some_amount hw (hc.ratio_ne _ hxm.1) (hc.id_inj _ _ hu hxm.1))
+
+/-- **Idempotence of the choice over ℚ**: converting to a system the result of a conversion to that system changes
+    nothing — the same unit is chosen and the value is returned as it is (non-negative leading numbers; with offsets —
+    temperatures — a negative value does not have the amount of its absolute value, on which the choice is made). -/
+theorem C09_convert_best_idempotent {c : Converter Rat} (hc : c.Sound) {u : Unit Rat} (hu : u ∈ c.allUnits)
+    (s : System) {value v' : ConvertValue Rat} {b : Unit Rat}
+    (h : c.convert value (.unit u) (.best s) = .ok (v', b)) (h0 : 0 ≤ value.lead) (h0' : 0 ≤ v'.lead) :
+    c.convert v' (.unit b) (.best s) = .ok (v', b) :=
+  bu_convert_of (to := .best s) rfl
+    (bu_convertToBest_idempotent hc hu s (bu_convert_inv (to := .best s) rfl h) h0 h0')
+
+/-- **The choice of `fit_fraction` with a target system** (`q` a number or a range in the known unit `unit`; `v` its
+    leading number).  The candidates are, in the order of the target system's best list of the unit's quantity, the
+    listed units with fractions enabled in which the converted value is approximated by `Number::new_approx` under that
+    unit's own configuration.  No candidate: the quantity is untouched, the answer `false`.  Otherwise the answer is
+    `true` and the selected candidate `sel` is the FIRST one that is minimal in the lexicographic order of
+    `(den, whole, |err|)` (a plain number counts as `(1, value, 0)`): everything before it is strictly larger, nothing
+    after it is smaller; the quantity then states `sel`'s number (as its number / the start of its range) in `sel`'s
+    unit, named by its symbol; and `sel`'s number IS a result of `new_approx` on the exactly converted value, so all of
+    C12's clauses (exact value, error within the accuracy, supported denominator ≤ max, whole part ≤ max) hold of it
+    in the chosen unit's configuration. -/
+theorem C09_fit_fraction_choice {c : Converter Rat} (hc : c.Sound) (q : SQuantity Rat) (unit : Unit Rat)
+    (system : System) (v : Rat) (hu : unitInfo c q = some unit) (hv : q.value.parts.head? = some v) :
+    (((c.best unit.pq).conversions system).entries.filterMap (fracCandOf c v unit) = [] ∧
+      fitFraction c q unit (some system) = (q, .ok false)) ∨
+    ∃ pre sel post q', ((c.best unit.pq).conversions system).entries.filterMap (fracCandOf c v unit)
+        = pre ++ sel :: post ∧
+      (∀ y ∈ pre, keyLt (fracKey sel.1) (fracKey y.1)) ∧ (∀ y ∈ post, ¬ keyLt (fracKey y.1) (fracKey sel.1)) ∧
+      fitFraction c q unit (some system) = (q', .ok true) ∧
+      q'.unit = sel.2.symbol? ∧ q'.value.leadNumber = some sel.1 ∧
+      sel.2 ∈ ((c.best unit.pq).conversions system).unitsOf ∧ (c.fractionsConfig sel.2).enabled = true ∧
+      ∃ nv, convertF64 v unit sel.2 = some nv ∧ sel.1.value = nv ∧
+        newApprox c.fracTable nv (c.fractionsConfig sel.2).accuracy (c.fractionsConfig sel.2).maxDen
+          (c.fractionsConfig sel.2).maxWhole = some sel.1 := by
+  have hff : fitFraction c q unit (some system) = fitFractionWith c q unit system v := by
+    unfold fitFraction
+    cases hq : q.value with
+    | text t => simp [hq, Value.parts] at hv
+    | number n => simp only [hq, Value.parts, List.head?_cons, Option.some.injEq] at hv; simp only [hv]
+    | range s e => simp only [hq, Value.parts, List.head?_cons, Option.some.injEq] at hv; simp only [hv]
+  rw [hff]
+  rcases ffc_fitFractionWith hc q unit system v hv (unitInfo_mem hu) with h | ⟨pre, sel, post, q', hl, h1, h2, h3, h4, h5⟩
+  · exact Or.inl h
+  · right
+    have hmem : sel ∈ ((c.best unit.pq).conversions system).entries.filterMap (fracCandOf c v unit) := by
+      rw [hl]; simp
+    obtain ⟨e, he, hce⟩ := List.mem_filterMap.mp hmem
+    obtain ⟨hsel, hen, nv, hnv, hap⟩ := ffc_candOf_spec hce
+    refine ⟨pre, sel, post, q', hl, h1, h2, h3, h4, h5, ?_, hen, nv, hnv, approx_value hap, hap⟩
+    rw [hsel]; exact List.mem_map.mpr ⟨e, he, rfl⟩
+
+/-- **The unit text after a conversion is `new_unit.symbol()`**: after every successful `ScaledQuantity::convert` the
+    unit text of the quantity is the symbol of a unit `nu` of the converter — its FIRST symbol, or, for a unit without
+    symbols, its first name (`C09_unit_symbol_rule`) — and that text resolves (`unit_info`) to `nu` itself, the unit
+    the amounts are restated in by `C09_convert_preserves_amount`. -/
+theorem C09_unit_text_is_symbol {c : Converter Rat} (hc : c.Sound) (q q' : SQuantity Rat) (to : ConvertTo Rat)
+    (hto : ∀ x, to = .unit (.unit x) → x ∈ c.allUnits) (h : convertImpl c q to = (q', .ok ())) :
+    ∃ nu, nu ∈ c.allUnits ∧ unitInfo c q' = some nu ∧ q'.unit = nu.symbol? :=
+  ffc_convertImpl_unit_text hc q q' to hto h
+
+/-- `Unit::symbol`: the first symbol if the unit has one, else its first name, else its first alias -/
+theorem C09_unit_symbol_rule (u : Unit Rat) :
+    (∀ s rest, u.symbols = s :: rest → u.symbol? = some s) ∧
+    (∀ s rest, u.symbols = [] → u.names = s :: rest → u.symbol? = some s) ∧
+    (u.symbols = [] → u.names = [] → u.symbol? = u.aliases.head?) :=
+  ffc_symbol_rule u
+
+/-! ### non-vacuity of the wave-4 theorems, on the shipped table -/
+
+/-- the hypotheses of `C09_best_unit_rule` are met by the shipped converter, and 999.9995 ml converts (same system) to
+    0.9999995 l — the test is `1000 − 0.001 ≤ 999.9995` in millilitres, the slack is 0.001 of the FIRST unit — while
+    999.5 ml stays in ml -/
+example : (Converter.bundled Rat).Sound ∧ (Converter.bundled Rat).BestOK ∧ (Converter.bundled Rat).PosRatios :=
+  ⟨C09_bundled_sound, C09_bundled_best_lists_ok.1, C09_bundled_best_lists_ok.2⟩
+example : ((Converter.bundled Rat).convert (.number (9999995/10000)) (.key ['m','l']) .sameSystem).toOption.map
+    (fun r => (r.1, r.2.symbol?)) = some (.number (1999999/2000000), some ['l']) := by decide +kernel
+example : ((Converter.bundled Rat).convert (.number (9995/10)) (.key ['m','l']) .sameSystem).toOption.map
+    (fun r => (r.1, r.2.symbol?)) = some (.number (1999/2), some ['m','l']) := by decide +kernel
+/-- a value too small for every listed unit falls to the smallest one: 1/2 ml stays ml -/
+example : ((Converter.bundled Rat).convert (.number (1/2)) (.key ['l']) .sameSystem).toOption.map
+    (fun r => (r.1, r.2.symbol?)) = some (.number 500, some ['m','l']) := by decide +kernel
+/-- `fit_fraction` on the shipped table: 10 tsp is fitted to 3 1/3 tbsp (keys: tsp `(8,…)`/none, tbsp `(3, 3, err)`,
+    cup `(…)`), the unit text is the symbol `tbsp` -/
+example : (fit (Converter.bundled Rat) ⟨.number (.regular 10), some ['t','s','p']⟩).1 =
+    ⟨.number (.fraction 3 1 3 (-5/22180146)), some ['t','b','s','p']⟩ := by decide +kernel
+/-- the unit text is the first SYMBOL even if the quantity was written with a name: `1500 milliliters` → `1.5 l` -/
+example : (fit (Converter.bundled Rat) ⟨.number (.regular 1500), some "milliliters".toList⟩).1 =
+    ⟨.number (.regular (3/2)), some ['l']⟩ := by decide +kernel
+
+/-! ### `fit` when fractions are disabled on its way (Lemmas/FitChoice.lean)
+
+  `FractionsOffFor c u s`: fractions are disabled for `u` and for every unit of the best list of `u`'s quantity for system
+  `s` (the shipped configuration of every metric unit).  `Converter.SystemsCoherent`: a listed unit's own system's list
+  (the default system's for a unit of none) is the list it is listed in. -/
+
+/-- With fractions disabled on its way a successful `fit` IS `Converter::convert(.., SameSystem)`: the unit is
+    `best_unit`'s choice (`C09_best_unit_rule`), the numbers are the converted plain numbers, the unit text is the
+    chosen unit's symbol. -/
+theorem C09_fit_without_fractions {c : Converter Rat} (hc : c.Sound) (q q' : SQuantity Rat) (u : Unit Rat)
+    (hu : unitInfo c q = some u) (hoff : FractionsOffFor c u (u.system.getD c.defaultSystem))
+    (h : fit c q = (q', .ok ())) :
+    ∃ value v' b, ConvertValue.ofValue q.value = .ok value ∧
+      c.convert value (.unit u) .sameSystem = .ok (v', b) ∧ q' = ⟨v'.toValue, b.symbol?⟩ := by
+  obtain ⟨value, v', b, h1, h2, h3⟩ := fc_fit_off_inv hc q q' u hu hoff h
+  exact ⟨value, v', b, h1, bu_convert_of (to := .sameSystem) rfl h2, h3⟩
+
+/-- **`fit` is idempotent over ℚ**: fitting an already fitted quantity chooses the same unit and returns the quantity
+    unchanged (fractions disabled on the way; non-negative leading numbers — the choice is made on absolute values,
+    which matters only for negative temperatures). -/
+theorem C09_fit_idempotent {c : Converter Rat} (hc : c.Sound) (hcoh : c.SystemsCoherent) (q q' : SQuantity Rat)
+    (u : Unit Rat) (hu : unitInfo c q = some u) (hoff : FractionsOffFor c u (u.system.getD c.defaultSystem))
+    (h : fit c q = (q', .ok ())) (h0 : ∀ x ∈ q.value.parts.head?, 0 ≤ x) (h0' : ∀ x ∈ q'.value.parts.head?, 0 ≤ x) :
+    fit c q' = (q', .ok ()) :=
+  fc_fit_idempotent hc hcoh q q' u hu hoff h h0 h0'
+
+/-- the lists of the shipped converter are not mixed across systems (decided on the generated table) -/
+theorem C09_bundled_systems_coherent : (Converter.bundled Rat).SystemsCoherent :=
+  fc_systemsCoherentB (by decide +kernel)
+
+/-- the hypotheses of `C09_fit_idempotent` on the shipped table: fractions are off for the millilitre and the metric
+    volume list; `1500 ml` is fitted to `1.5 l`, and `1.5 l` is fitted to itself -/
+example : ((Converter.bundled Rat).findUnit ['m','l']).map
+    (fun u => decide (FractionsOffFor (Converter.bundled Rat) u (u.system.getD (Converter.bundled Rat).defaultSystem)))
+    = some true := by decide +kernel
+example : (fit (Converter.bundled Rat) ⟨.number (.regular 1500), some ['m','l']⟩).1 =
+      ⟨.number (.regular (3/2)), some ['l']⟩ ∧
+    (fit (Converter.bundled Rat) ⟨.number (.regular 1500), some ['m','l']⟩).2.toOption = some () ∧
+    (fit (Converter.bundled Rat) ⟨.number (.regular (3/2)), some ['l']⟩).1 =
+      ⟨.number (.regular (3/2)), some ['l']⟩ := by decide +kernel
+
+/-- `C09_best_unit_rule` for every converter the builder makes of units files with positive ratios (soundness and the
+    invariant of the best lists are theorems for built converters; positivity of the ratios is a premise on the files —
+    the builder does not check it) -/
+theorem C09_best_unit_rule_built {files : List (Bld.UnitsFile Rat)} {c : Converter Rat}
+    (hbuilt : Bld.BuiltAs files c) (hpos : c.PosRatios)
+    {u : Unit Rat} (hu : u ∈ c.allUnits) {to : ConvertTo Rat} {s : System} (hs : to.systemFor c u = some s)
+    {value v' : ConvertValue Rat} {b : Unit Rat} (h : c.convert value (.unit u) to = .ok (v', b)) :
+    ∃ base, ((c.best u.pq).conversions s).unitsOf.head? = some base ∧
+      b ∈ ((c.best u.pq).conversions s).unitsOf ∧ b.pq = u.pq ∧
+      (∀ x ∈ ((c.best u.pq).conversions s).unitsOf, base.ratio ≤ x.ratio) ∧
+      ((amount 1 b - 1 / 1000 * base.ratio ≤ amount (Rat.abs value.lead) u ∧
+          ∀ x ∈ ((c.best u.pq).conversions s).unitsOf, b.ratio < x.ratio →
+            amount (Rat.abs value.lead) u < amount 1 x - 1 / 1000 * base.ratio) ∨
+       (b = base ∧ ∀ x ∈ ((c.best u.pq).conversions s).unitsOf,
+            amount (Rat.abs value.lead) u < amount 1 x - 1 / 1000 * base.ratio)) :=
+  C09_best_unit_rule hbuilt.sound (bub_built_bestOK hbuilt) hpos hu hs h
 
 end Cook
